@@ -24,7 +24,7 @@ Fail(prop, rule, e) == PrintT(<<"FAIL", prop, rule, e.hi, (IF Has(e, "oi") THEN 
 
 NoHandle == [open |-> FALSE, name |-> "", view |-> <<>>, cur |-> 0, known |-> TRUE, fill |-> 0, clean |-> TRUE]
 S0 == [files |-> <<>>, cfopen |-> FALSE, hd |-> NoHandle, mode |-> "plain",
-       faulted |-> FALSE, taint |-> FALSE]
+       faulted |-> FALSE, taint |-> {}, unrec |-> {}]
 
 StreamRuns(streams, n) == RNorm(streams[CHOOSE i \in 1..Len(streams) : streams[i].name = n].runs)
 InitFiles(streams) == [n \in {streams[i].name : i \in 1..Len(streams)} |-> StreamRuns(streams, n)]
@@ -48,7 +48,7 @@ WalkList(files) ==
 
 (* Error kinds the model predicts for a call in state st ({} = must succeed) *)
 ExpectErr(st, e) ==
-  CASE e.op \in {"entry", "open_stream"} ->
+  CASE e.op \in {"entry", "open_stream", "remove_stream"} ->
          IF e.name \in DOMAIN st.files THEN {} ELSE {"NotFound"}
     [] e.op = "seek" ->
          LET t == SeekTarget(st, e) IN IF t < 0 \/ t > Len_(st) THEN {"InvalidInput"} ELSE {}
@@ -76,6 +76,8 @@ OkStep(st, e) ==
          V(TRUE, [st EXCEPT !.files = (e.name :> <<>>) @@ @,
                             !.hd = [open |-> TRUE, name |-> e.name, view |-> <<>>, cur |-> 0,
                                     known |-> TRUE, fill |-> 0, clean |-> TRUE]], "create_stream")
+    [] e.op = "remove_stream" ->
+         V(TRUE, [st EXCEPT !.files = [n \in (DOMAIN @) \ {e.name} |-> @[n]]], "remove_stream")
     [] e.op = "read" ->
          LET k == RLen(v) IN
          V(/\ k <= e.n /\ k <= Len_(st) - hd.cur
@@ -113,20 +115,22 @@ OkStep(st, e) ==
          V(TRUE, WithHd(st, [hd EXCEPT !.view = RSetLen(@, e.n), !.cur = RMin(@, e.n), !.fill = 0,
                                        !.clean = (e.n = Len_(st) /\ @)]), "set_len")
     [] e.op = "flush" ->
-         V(TRUE, [st EXCEPT !.files = (hd.name :> hd.view) @@ @, !.hd.clean = TRUE], "flush")
+         V(TRUE, [st EXCEPT !.files = (hd.name :> hd.view) @@ @, !.hd.clean = TRUE, !.unrec = @ \ {hd.name}], "flush")
     [] e.op = "cf_flush" -> V(TRUE, st, "cf_flush")
     [] e.op = "len" -> V(v = Len_(st), st, "len")
     [] e.op = "fresh_read" ->
          \* after an Ok flush every accepted byte is read back by a fresh handle AND is in the
          \* file image itself (e.disk = the stream as read from a reopened copy of the bytes).
-         \* After an injected failure the image as a whole may be beyond reopening (an earlier
-         \* failed call may have left other structures half-updated - "later calls may fail");
-         \* the stored bytes are then only judged when the copy can be opened and read.
-         V((hd.clean /\ ~st.taint) =>
+         \* While some injected failure has not been made good by a later Ok flush on the same
+         \* stream, the image as a whole may be beyond reopening (the failed call may have left
+         \* other structures half-updated - "later calls may fail"); the stored bytes are then
+         \* only judged when the copy can be opened and read.  Once every failed write-back has
+         \* been retried successfully the image must be readable again.
+         V((hd.clean /\ hd.name \notin st.taint) =>
               /\ RNorm(v) = st.files[hd.name]
               /\ (Has(e, "disk") =>
                     IF e.disk.k = "ok" THEN RNorm(e.disk.v) = st.files[hd.name]
-                    ELSE (st.mode = "rw_faults" /\ st.faulted)),
+                    ELSE (st.mode = "rw_faults" /\ st.unrec # {})),
            st, "fresh_read")
     [] e.op = "close" ->
          V(TRUE, [st EXCEPT !.files = IF hd.open THEN (hd.name :> hd.view) @@ @ ELSE @,
@@ -148,13 +152,22 @@ ResetStep(e) ==
 (* after an error the cursor is whatever the implementation says next       *)
 AfterErr(st, e) ==
   [st EXCEPT !.faulted = @ \/ Fired(e),
+             \* unrec: streams whose handle saw an injected failure that no later Ok flush on the same
+             \* stream has made good ("*": a failure outside any handle).  While it is non-empty some
+             \* half-done update may still be in the image.
+             !.unrec = @ \cup {IF NeedsHandle(e) /\ st.hd.open THEN st.hd.name ELSE "*"},
              \* io::Read: "if an error is returned then it must be guaranteed that no bytes were read":
              \* a failed read / fill_buf leaves the cursor where it was; other failed calls may have
              \* made partial progress (resolved by the next logged position)
              !.hd.known = IF MovesCursor(e) /\ st.mode # "plain" /\ ~(st.mode = "ro_faults" /\ e.op \in {"read", "fill_buf"})
                           THEN FALSE ELSE @,
              !.hd.fill = 0,
-             !.taint = @ \/ (e.op \in {"set_len", "write_all", "close", "create_stream"} /\ st.mode = "rw_faults")]
+             \* taint: streams whose content the model no longer knows (a failed call may have taken
+             \* partial effect on THAT stream); every other stream is still judged in full
+             !.taint = IF st.mode # "rw_faults" THEN @
+                       ELSE IF e.op \in {"set_len", "write_all", "close"} /\ st.hd.open THEN @ \cup {st.hd.name}
+                       ELSE IF e.op \in {"create_stream", "remove_stream"} THEN @ \cup {e.name}
+                       ELSE @]
 
 OpStep(e) ==
   IF skip THEN UNCHANGED <<s, skip>>
@@ -189,14 +202,17 @@ OpStep(e) ==
        THEN /\ Fail("C13", "fault-swallowed", e) /\ skip' = TRUE /\ UNCHANGED s
        ELSE
        LET r == OkStep(s, e)
-           relaxed == s.mode = "rw_faults" /\ (s.faulted \/ s.taint) /\ e.op \notin {"fresh_read", "len", "flush"}
-           lenok == (Has(e, "len") /\ r.st.hd.open /\ ~r.st.taint) => e.len = RLen(r.st.hd.view)
+           relaxed == s.mode = "rw_faults" /\ (s.faulted \/ s.taint # {}) /\ e.op \notin {"fresh_read", "len", "flush"}
+           lenok == (Has(e, "len") /\ r.st.hd.open /\ r.st.hd.name \notin r.st.taint) => e.len = RLen(r.st.hd.view)
        IN IF ~r.valid /\ ~relaxed
           THEN /\ Fail(IF s.mode = "ro_faults" THEN "C12" ELSE IF s.mode = "rw_faults" THEN "C13" ELSE "C06", r.rule, e)
                /\ skip' = TRUE /\ UNCHANGED s
           ELSE IF ~lenok
           THEN /\ Fail("C06", "len-not-current", e) /\ skip' = TRUE /\ UNCHANGED s
-          ELSE /\ s' = [r.st EXCEPT !.faulted = @ \/ fired] /\ skip' = FALSE
+          ELSE /\ s' = [r.st EXCEPT !.faulted = @ \/ fired,
+                                  \* a failure swallowed by a drop leaves that stream's update unfinished
+                                  !.unrec = IF fired THEN @ \cup {IF s.hd.open THEN s.hd.name ELSE "*"} ELSE @]
+               /\ skip' = FALSE
 
 Step ==
   /\ l <= Len(Rec)
